@@ -425,9 +425,11 @@ def proof_stage(run, prop, extra_targets=()):
         rc, o, e = sh(["coqchk", "-silent", "-o", "-Q", "model", "TkModel", "-Q", "spec", "TkSpec", "-Q", "proofs", "TkProofs",
                        "-Q", "props", "TkProps", "-Q", "corr", "TkCorr", "TkProps." + prop], cwd=COQ, timeout=3000)
         info["coqchk"] = (o + e)[-1500:]
-        if rc != 0 or "Axioms: <none>" not in (o + e).replace("\n", " ").replace("  ", " ") and "* Axioms: <none>" not in (o + e):
-            if rc != 0:
-                run.violation("coqchk rejected TkProps.%s" % prop, {"log": info["coqchk"]}, found_input=False)
+        flat = re.sub(r"\s+", " ", o + e)
+        if rc != 0:
+            run.violation("coqchk rejected TkProps.%s" % prop, {"theorem_file": "coq/props/%s.v" % prop, "log": info["coqchk"]}, found_input=False)
+        elif "Axioms: <none>" not in flat:
+            run.violation("coqchk reports axioms under TkProps.%s" % prop, {"theorem_file": "coq/props/%s.v" % prop, "log": info["coqchk"]}, found_input=False)
         run.notes["coqchk"] = info["coqchk"][-600:]
     return info
 
